@@ -233,6 +233,9 @@ Proof. destruct U; cbv; congruence. Qed.
 Lemma lstrip_dot_nondot c s : is_dot c = false -> lstrip_dot (c :: s) = c :: s.
 Proof. intros H. cbn [lstrip_dot]. now rewrite H. Qed.
 
+Lemma skipn_S_app {A} (a : list A) x t : skipn (S (length a)) (a ++ x :: t) = t.
+Proof. induction a as [|y a IH]; [reflexivity | exact IH]. Qed.
+
 (* the regex splits a fully-qualified name correctly when the package is free of capitals and the
    top-level type name contains one *)
 Lemma parse_full_name pkg top rest :
@@ -243,7 +246,7 @@ Proof.
   destruct (has_upper_split top Ht) as (l & U & r & -> & Hl & HU).
   assert (Dl : no_dot l).
   { unfold no_dot in *. rewrite Forall_forall in *. intros c Hc. apply Hd. apply in_or_app. now left. }
-  assert (Hdot : exists tail, dotted ((l ++ U :: r) :: rest) = l ++ U :: tail).
+  assert (Hdot : exists tail, dotted (@cons str (l ++ U :: r) rest) = l ++ U :: tail).
   { unfold dotted. destruct rest as [|x xs]; cbn [join].
     - now exists r.
     - exists (r ++ [c_dot] ++ join [c_dot] (x :: xs)). now rewrite <- app_assoc. }
@@ -269,7 +272,837 @@ Proof.
     rewrite scan_plain, scan_stop_upper by assumption.
     cbn [Nat.add].
     rewrite firstn_app, Nat.sub_diag, firstn_all, firstn_O, app_nil_r.
-    change (S (length (p0 :: ps))) with (length ((p0 :: ps) ++ [c_dot])).
-    change ((p0 :: ps) ++ c_dot :: l ++ U :: tail) with ((p0 :: ps) ++ [c_dot] ++ l ++ U :: tail).
-    rewrite app_assoc, skipn_app, skipn_all, Nat.sub_diag. reflexivity.
+    now rewrite skipn_S_app.
+Qed.
+
+(* ======================================================================================
+   Part 2 — tables (re-proved against the regenerated gen/C03Tables.v on every run) and symbols
+   ====================================================================================== *)
+Definition str_dec : forall a b : str, {a = b} + {a <> b} := list_eq_dec Byte.byte_eq_dec.
+
+Lemma lookup_not_in {A} k (l : list (str * A)) : ~ In k (map fst l) -> lookup k l = None.
+Proof.
+  induction l as [|[k' v] r IH]; intros H; [reflexivity|].
+  cbn [lookup]. destruct (str_eqb k k') eqn:E.
+  - apply str_eqb_eq in E. subst. exfalso. apply H. now left.
+  - apply IH. intros Hin. apply H. now right.
+Qed.
+
+Lemma lookup_some_in {A} k v (l : list (str * A)) : lookup k l = Some v -> In (k, v) l.
+Proof.
+  induction l as [|[k' v'] r IH]; [discriminate|].
+  cbn [lookup]. destruct (str_eqb k k') eqn:E.
+  - apply str_eqb_eq in E. intros [= ->]. subst. now left.
+  - intros H. right. auto.
+Qed.
+
+Lemma lookups_agree {A B} (g : B -> A) (l1 : list (str * A)) (l2 : list (str * B)) :
+  Forall (fun k => lookup k l1 = option_map g (lookup k l2)) (map fst l1 ++ map fst l2) ->
+  forall k, lookup k l1 = option_map g (lookup k l2).
+Proof.
+  intros H k. rewrite Forall_forall in H.
+  destruct (in_dec str_dec k (map fst l1 ++ map fst l2)) as [Hin | Hn]; [now apply H|].
+  rewrite !lookup_not_in; [reflexivity | |]; intros Hc; apply Hn; apply in_or_app; [right | left]; assumption.
+Qed.
+
+Lemma wrappers_agree tn : lookup tn WRAPPER_TYPES = option_map snd (lookup tn wkt_wrappers).
+Proof.
+  apply lookups_agree. repeat (constructor; [vm_compute; reflexivity|]). constructor.
+Qed.
+
+Lemma duration_const : s_Duration = wkt_duration. Proof. reflexivity. Qed.
+Lemma timestamp_const : s_Timestamp = wkt_timestamp. Proof. reflexivity. Qed.
+Lemma gp_const : s_gp = google_protobuf. Proof. reflexivity. Qed.
+Lemma bundled_const : s_bundled_gp = bundled_google_protobuf. Proof. reflexivity. Qed.
+
+Definition valid_types : list Z := [1; 2; 3; 4; 5; 6; 7; 8; 9; 11; 12; 13; 14; 15; 16; 17; 18].
+
+Lemma kind_name_in t kn : kind_name t = Some kn -> In t valid_types.
+Proof.
+  unfold kind_name, scalar_kind, T_DOUBLE, T_FLOAT, T_INT64, T_UINT64, T_INT32, T_FIXED64, T_FIXED32, T_BOOL,
+    T_STRING, T_BYTES, T_UINT32, T_SFIXED32, T_SFIXED64, T_SINT32, T_SINT64, T_MESSAGE, T_ENUM.
+  repeat match goal with
+         | |- context [?a =? ?b] => destruct (Z.eqb_spec a b) as [->|]; [intros _; cbn; tauto|]
+         end.
+  discriminate.
+Qed.
+
+(* shapes of value types: [prim] scalars, [simple] what py_type can return *)
+Definition prim (t : pytype) : Prop :=
+  match t with PyInt | PyFloat | PyBool | PyStr | PyBytes => True | _ => False end.
+Definition simple (t : pytype) : Prop :=
+  match t with
+  | PyOptional u => prim u
+  | PyList _ | PyDict _ _ => False
+  | _ => True
+  end.
+
+Lemma prim_simple t : prim t -> simple t.
+Proof. destruct t; cbn; tauto. Qed.
+
+Lemma simple_norm t : simple t -> norm_hint t = t.
+Proof. destruct t as [| | | | | | | | u | |]; cbn [simple]; try tauto; try reflexivity. destruct u; cbn; tauto. Qed.
+
+Lemma wrapper_values_prim : Forall (fun kv => prim (snd kv)) WRAPPER_TYPES.
+Proof. repeat (constructor; [exact I|]). constructor. Qed.
+
+Lemma type_reference_simple cn pkg tn : simple (type_reference cn pkg tn).
+Proof.
+  unfold type_reference. destruct (lookup tn WRAPPER_TYPES) as [py|] eqn:E.
+  - apply lookup_some_in in E. pose proof wrapper_values_prim as F. rewrite Forall_forall in F. exact (F _ E).
+  - destruct (str_eqb tn s_Duration); [exact I|]. destruct (str_eqb tn s_Timestamp); [exact I|].
+    destruct (parse_source_type_name tn). exact I.
+Qed.
+
+(* what the plugin's tables say about one descriptor.proto type number *)
+Definition type_row_ok (t : Z) : Prop :=
+  match kind_name t with
+  | None => True
+  | Some kn =>
+      field_type_str t = Ok kn
+      /\ lookup kn bp_field_proto_type = Some kn
+      /\ (exists aw, lookup kn bp_field_accepts = Some (aw, true, true) /\ (t = T_MESSAGE -> aw = true))
+      /\ (exists nm, type_enum_name t = Ok nm /\ lookup nm bp_type_constants = Some kn)
+      /\ (forall cn pkg f, fd_type f = t ->
+            py_type cn pkg f = match scalar_kind t with
+                               | Some (_, py) => Ok py
+                               | None => Ok (type_reference cn pkg (fd_type_name f))
+                               end)
+      /\ match scalar_kind t with Some (_, py) => prim py | None => True end
+  end.
+
+Lemma type_table_ok : Forall type_row_ok valid_types.
+Proof.
+  unfold valid_types.
+  repeat (constructor;
+          [ hnf; split; [vm_compute; reflexivity|];
+            split; [vm_compute; reflexivity|];
+            split; [eexists; split; [vm_compute; reflexivity | intros E; try discriminate E; reflexivity]|];
+            split; [eexists; split; vm_compute; reflexivity|];
+            split; [intros cn pkg f E; unfold py_type; rewrite E; reflexivity | exact I]
+          |]).
+  constructor.
+Qed.
+
+Lemma type_row t kn : kind_name t = Some kn -> type_row_ok t.
+Proof.
+  intros H. pose proof type_table_ok as F. rewrite Forall_forall in F. apply F. eapply kind_name_in; eauto.
+Qed.
+
+Lemma map_helper_ok : lookup s_map bp_field_proto_type = Some s_map
+                      /\ exists aw ao, lookup s_map bp_field_accepts = Some (aw, ao, true).
+Proof. split; [vm_compute; reflexivity | do 2 eexists; vm_compute; reflexivity]. Qed.
+
+Lemma type_message_num : TYPE_MESSAGE_NUM = T_MESSAGE. Proof. reflexivity. Qed.
+Lemma label_repeated_num : LABEL_REPEATED_NUM = L_REPEATED. Proof. reflexivity. Qed.
+
+(* ---- induction over nested messages ---- *)
+Section MsgInd.
+  Variable P : msg_d -> Prop.
+  Hypothesis Hstep : forall n fs ns es os me, Forall P ns -> P (mkMsg n fs ns es os me).
+  Fixpoint msg_d_ind' (m : msg_d) : P m :=
+    match m with
+    | mkMsg n fs ns es os me =>
+        Hstep n fs ns es os me
+          ((fix go (l : list msg_d) : Forall P l :=
+              match l with
+              | [] => Forall_nil P
+              | x :: r => Forall_cons x (msg_d_ind' x) (go r)
+              end) ns)
+    end.
+End MsgInd.
+
+Lemma all_msgs_unfold pre m :
+  all_msgs pre m = (pre ++ [md_name m], m) :: flat_map (all_msgs (pre ++ [md_name m])) (md_nested m).
+Proof. destruct m; reflexivity. Qed.
+
+Lemma all_enums_in_unfold pre m :
+  all_enums_in pre m = map (fun e => ((pre ++ [md_name m]) ++ [ed_name e], e)) (md_enums m)
+                       ++ flat_map (all_enums_in (pre ++ [md_name m])) (md_nested m).
+Proof. destruct m; reflexivity. Qed.
+
+Lemma all_msgs_head m : forall pre p x, In (p, x) (all_msgs pre m) -> exists rest, p = pre ++ md_name m :: rest.
+Proof.
+  induction m as [n fs ns es os me IH] using msg_d_ind'. intros pre p x.
+  rewrite all_msgs_unfold. cbn [md_name md_nested]. intros [E | Hin].
+  - injection E as <- <-. now exists [].
+  - apply in_flat_map in Hin as (y & Hy & Hin). rewrite Forall_forall in IH.
+    destruct (IH y Hy _ _ _ Hin) as [rest ->]. exists (md_name y :: rest). now rewrite <- app_assoc.
+Qed.
+
+Lemma all_enums_in_head m : forall pre p x, In (p, x) (all_enums_in pre m) -> exists rest, p = pre ++ md_name m :: rest.
+Proof.
+  induction m as [n fs ns es os me IH] using msg_d_ind'. intros pre p x.
+  rewrite all_enums_in_unfold. cbn [md_name md_nested md_enums]. intros Hin. apply in_app_or in Hin as [Hin | Hin].
+  - apply in_map_iff in Hin as (e & E & _). injection E as <- <-. exists [ed_name e]. now rewrite <- app_assoc.
+  - apply in_flat_map in Hin as (y & Hy & Hin). rewrite Forall_forall in IH.
+    destruct (IH y Hy _ _ _ Hin) as [rest ->]. exists (md_name y :: rest). now rewrite <- app_assoc.
+Qed.
+
+Lemma all_msgs_nested m : forall pre p x e, In (p, x) (all_msgs pre m) -> In e (md_nested x) ->
+  In (p ++ [md_name e], e) (all_msgs pre m).
+Proof.
+  induction m as [n fs ns es os me IH] using msg_d_ind'. intros pre p x e.
+  rewrite all_msgs_unfold. cbn [md_name md_nested]. intros [E | Hin] He.
+  - injection E as <- <-. cbn [md_nested] in He. right. apply in_flat_map. exists e. split; [assumption|].
+    rewrite all_msgs_unfold. now left.
+  - right. apply in_flat_map in Hin as (y & Hy & Hin). apply in_flat_map. exists y. split; [assumption|].
+    rewrite Forall_forall in IH. eapply IH; eauto.
+Qed.
+
+(* a symbol of D lives in a file of D, and its path starts with a top-level name of that file *)
+Lemma symbols_in D s : In s (symbols D) ->
+  exists f top rest, In f D /\ sym_pkg s = fl_package f /\ sym_path s = top :: rest
+    /\ ((exists m, In m (fl_messages f) /\ md_name m = top) \/ (exists e, In e (fl_enums f) /\ ed_name e = top)).
+Proof.
+  unfold symbols. intros H. apply in_flat_map in H as (f & Hf & H). exists f.
+  unfold file_symbols in H. apply in_app_or in H as [H | H]; apply in_map_iff in H as ([p x] & <- & H); cbn [sym_pkg sym_path].
+  - unfold file_msgs in H. apply in_flat_map in H as (m & Hm & H).
+    destruct (all_msgs_head _ _ _ _ H) as [rest ->]. exists (md_name m), rest. cbn [app]. repeat split; eauto.
+  - unfold file_enums in H. apply in_app_or in H as [H | H].
+    + apply in_map_iff in H as (e & E & He). injection E as <- <-. exists (ed_name e), []. repeat split; eauto.
+    + apply in_flat_map in H as (m & Hm & H).
+      destruct (all_enums_in_head _ _ _ _ H) as [rest ->]. exists (md_name m), rest. cbn [app]. repeat split; eauto.
+Qed.
+
+Lemma resolve_some D tn s : resolve D tn = Some s -> In s (symbols D) /\ sym_full_name s = tn.
+Proof. unfold resolve. intros H. apply find_some in H as [Hin E]. apply str_eqb_eq in E. auto. Qed.
+
+(* ======================================================================================
+   Part 3 — one field
+   ====================================================================================== *)
+Lemma mapM_ok {A B} (f : A -> result B) (l : list A) (g : A -> B) :
+  (forall a, In a l -> f a = Ok (g a)) -> mapM f l = Ok (map g l).
+Proof.
+  induction l as [|a r IH]; intros H; [reflexivity|].
+  cbn [mapM map]. rewrite (H a) by now left. cbn [bind]. rewrite IH by (intros; apply H; now right). reflexivity.
+Qed.
+
+Lemma nodupb_NoDup l : nodupb l = true -> NoDup l.
+Proof.
+  induction l as [|x r IH]; intros H; [constructor|].
+  cbn [nodupb] in H. apply andb_prop in H as [Hx Hr]. constructor; [|auto].
+  intros Hin. apply negb_true_iff in Hx. unfold smem in Hx.
+  assert (existsb (str_eqb x) r = true) as E; [|congruence].
+  apply existsb_exists. exists x. split; [assumption | apply str_eqb_refl].
+Qed.
+
+(* in a list whose elements have pairwise distinct keys, a filter all of whose results share the key
+   of one of them returns exactly that element *)
+Lemma filter_unique {A} (key : A -> str) (P : A -> bool) (l : list A) (e : A) :
+  NoDup (map key l) -> In e l -> P e = true ->
+  (forall n, In n (filter P l) -> key n = key e) -> filter P l = [e].
+Proof.
+  induction l as [|a r IH]; intros Hnd Hin HP Hall; [contradiction|].
+  inversion Hnd as [|? ? Hna Hnr]; subst. cbn [filter] in *. destruct Hin as [-> | Hin].
+  - rewrite HP in *. f_equal.
+    assert (Hempty : forall b, In b (filter P r) -> False).
+    { intros b Hb. apply Hna. rewrite <- (Hall b (or_intror Hb)). apply in_map. apply filter_In in Hb. tauto. }
+    destruct (filter P r) as [|b t]; [reflexivity|]. exfalso. apply (Hempty b). now left.
+  - destruct (P a) eqn:Pa.
+    + exfalso. apply Hna. rewrite (Hall a (or_introl eq_refl)). now apply in_map.
+    + apply IH; auto.
+Qed.
+
+Lemma nth_error_nth {A} (l : list A) n d : (n < length l)%nat -> nth_error l n = Some (nth n l d).
+Proof. revert n; induction l as [|a r IH]; intros [|n] H; cbn in *; try lia; [reflexivity | apply IH; lia]. Qed.
+
+Lemma py_index_ok {A} (l : list A) i d : 0 <= i < Zlength l -> py_index l i = Ok (nth (Z.to_nat i) l d).
+Proof.
+  intros H. unfold py_index. destruct (Z.ltb_spec i 0); [lia|].
+  destruct (Z.leb_spec 0 i); [|lia]. destruct (Z.ltb_spec i (Zlength l)); [|lia]. cbn [andb].
+  rewrite (nth_error_nth l (Z.to_nat i) d); [reflexivity|]. unfold Zlength in H. lia.
+Qed.
+
+Lemma mapM_Forall2 {A B} (f : A -> result B) (Q : A -> B -> Prop) (l : list A) :
+  (forall a, In a l -> exists y, f a = Ok y /\ Q a y) ->
+  exists ys, mapM f l = Ok ys /\ Forall2 Q l ys.
+Proof.
+  induction l as [|a r IH]; intros H.
+  - exists []. split; [reflexivity | constructor].
+  - destruct (H a (or_introl eq_refl)) as (y & Hy & Qy).
+    destruct IH as (ys & Hys & Fys); [intros; apply H; now right|].
+    exists (y :: ys). cbn [mapM]. rewrite Hy. cbn [bind]. rewrite Hys. cbn [bind]. split; [reflexivity | now constructor].
+Qed.
+
+Lemma mapM_map {A B C} (f : B -> result C) (g : A -> B) (l : list A) :
+  mapM f (map g l) = mapM (fun a => f (g a)) l.
+Proof. induction l as [|a r IH]; [reflexivity|]. cbn [map mapM]. now rewrite IH. Qed.
+
+Lemma all_some_Forall2 {A B C} (h : A -> option C) (r : B -> C) (l : list A) (ys : list B) :
+  Forall2 (fun a y => h a = Some (r y)) l ys -> all_some (map h l) = Some (map r ys).
+Proof.
+  induction 1 as [|a y l ys Hy _ IH]; [reflexivity|]. cbn [map all_some]. now rewrite Hy, IH.
+Qed.
+
+Lemma Forall2_impl {A B} (P Q : A -> B -> Prop) l ys :
+  (forall a y, P a y -> Q a y) -> Forall2 P l ys -> Forall2 Q l ys.
+Proof. intros H. induction 1; constructor; auto. Qed.
+
+Lemma Forall2_map_eq {A B C} (g : A -> C) (h : B -> C) l ys :
+  Forall2 (fun a y => h y = g a) l ys -> map h ys = map g l.
+Proof. induction 1 as [|a y l ys E _ IH]; [reflexivity|]. cbn [map]. now rewrite E, IH. Qed.
+
+Lemma ns_insert_fresh {A} k (v : A) l : ~ In k (map fst l) -> ns_insert k v l = l ++ [(k, v)].
+Proof.
+  induction l as [|[k' v'] r IH]; intros H; [reflexivity|].
+  cbn [ns_insert]. destruct (str_eqb k k') eqn:E.
+  - apply str_eqb_eq in E. subst. exfalso. apply H. now left.
+  - cbn [app]. f_equal. apply IH. intros Hin. apply H. now right.
+Qed.
+
+Lemma py_namespace_aux {A} (l acc : list (str * A)) : NoDup (map fst (acc ++ l)) ->
+  fold_left (fun a kv => ns_insert (fst kv) (snd kv) a) l acc = acc ++ l.
+Proof.
+  revert acc. induction l as [|[k v] r IH]; intros acc H; cbn [fold_left].
+  - now rewrite app_nil_r.
+  - cbn [fst snd]. rewrite ns_insert_fresh.
+    + rewrite IH; rewrite <- app_assoc; [reflexivity | exact H].
+    + rewrite map_app in H. apply NoDup_remove_2 in H. intros Hin. apply H. apply in_or_app. now left.
+Qed.
+
+(* with pairwise distinct names, nothing is replaced *)
+Lemma py_namespace_nodup {A} (l : list (str * A)) : NoDup (map fst l) -> py_namespace l = l.
+Proof. intros H. unfold py_namespace. now rewrite py_namespace_aux. Qed.
+
+Lemma filter_map_comm {A B} (g : A -> B) (P : B -> bool) (l : list A) :
+  filter P (map g l) = map g (filter (fun a => P (g a)) l).
+Proof. induction l as [|a r IH]; [reflexivity|]. cbn [map filter]. destruct (P (g a)); cbn [map]; now rewrite IH. Qed.
+
+Lemma map_flat_map {A B C} (g : B -> C) (F : A -> list B) (l : list A) :
+  map g (flat_map F l) = flat_map (fun a => map g (F a)) l.
+Proof. induction l as [|a r IH]; [reflexivity|]. cbn [flat_map]. now rewrite map_app, IH. Qed.
+
+Lemma flat_map_ext_in {A B} (F G : A -> list B) (l : list A) :
+  (forall a, In a l -> F a = G a) -> flat_map F l = flat_map G l.
+Proof.
+  induction l as [|a r IH]; intros H; [reflexivity|]. cbn [flat_map].
+  rewrite (H a) by now left. rewrite IH; [reflexivity|]. intros; apply H; now right.
+Qed.
+
+Lemma flat_snoc pre n : flat (pre ++ [n]) = flat pre ++ c_us :: n.
+Proof. unfold flat. rewrite map_app, concat_app. cbn [map concat]. now rewrite app_nil_r. Qed.
+
+Section Faithful.
+  Variable field_name : str -> str.
+  Variable class_name : str -> str.
+  Variable enum_member_name : str -> str -> str.
+  Variable D : descriptor.
+  Hypothesis Hwf : protoc_wf D = true.
+  Hypothesis Hpk : pkg_names_ok D = true.
+
+  Lemma wf_file f : In f D -> file_wf D f = true.
+  Proof. intros H. unfold protoc_wf in Hwf. rewrite forallb_forall in Hwf. auto. Qed.
+
+  Lemma wf_msg f p m : In f D -> In (p, m) (file_msgs f) -> msg_wf D (fl_package f) (p, m) = true.
+  Proof.
+    intros Hf Hm. pose proof (wf_file f Hf) as H. unfold file_wf in H.
+    apply andb_prop in H as [H _]. apply andb_prop in H as [H _]. rewrite forallb_forall in H. auto.
+  Qed.
+
+  Lemma wf_msg_parts pkg p m : msg_wf D pkg (p, m) = true ->
+    ident (md_name m) = true
+    /\ (forall x, In x (md_fields m) -> field_wf D pkg p m x = true)
+    /\ (forall e, In e (md_enums m) -> ident (ed_name e) = true)
+    /\ NoDup (map md_name (md_nested m))
+    /\ (md_map_entry m = true -> map_entry_wf m = true).
+  Proof.
+    unfold msg_wf. cbn [fst snd]. intros H.
+    apply andb_prop in H as [H H5]. apply andb_prop in H as [H H4]. apply andb_prop in H as [H H3].
+    apply andb_prop in H as [H1 H2]. rewrite forallb_forall in H2, H3.
+    repeat split; auto using nodupb_NoDup.
+    intros E. rewrite E in H5. exact H5.
+  Qed.
+
+  Lemma top_level_ok f : In f D ->
+    no_upper_P (fl_package f)
+    /\ (forall m, In m (fl_messages f) -> has_upper (md_name m) = true /\ ident (md_name m) = true)
+    /\ (forall e, In e (fl_enums f) -> has_upper (ed_name e) = true /\ ident (ed_name e) = true).
+  Proof.
+    intros Hf. unfold pkg_names_ok in Hpk. rewrite forallb_forall in Hpk. specialize (Hpk f Hf).
+    apply andb_prop in Hpk as [H He]. apply andb_prop in H as [Hp Hm].
+    rewrite forallb_forall in Hm, He. split; [now apply no_upper_iff|]. split.
+    - intros m Hin. split; [auto|].
+      assert (Hmm : In ([md_name m], m) (file_msgs f)).
+      { unfold file_msgs. apply in_flat_map. exists m. split; [assumption|]. rewrite all_msgs_unfold. now left. }
+      apply (wf_msg_parts _ _ _ (wf_msg f _ _ Hf Hmm)).
+    - intros e Hin. split; [auto|]. pose proof (wf_file f Hf) as H. unfold file_wf in H.
+      apply andb_prop in H as [H _]. apply andb_prop in H as [_ H]. rewrite forallb_forall in H. auto.
+  Qed.
+
+  (* the package regex agrees with the symbol table *)
+  Lemma ref_ok tn s : resolve D tn = Some s -> parse_source_type_name tn = (sym_pkg s, dotted (sym_path s)).
+  Proof.
+    intros H. apply resolve_some in H as [Hin <-].
+    destruct (symbols_in D s Hin) as (f & top & rest & Hf & Ep & Epath & Htop).
+    destruct (top_level_ok f Hf) as (Hp & Hm & He).
+    unfold sym_full_name. rewrite Ep, Epath.
+    assert (Hu : has_upper top = true /\ ident top = true).
+    { destruct Htop as [(m & Hin' & <-) | (e & Hin' & <-)]; auto. }
+    destruct Hu as [Hu Hi]. apply parse_full_name; [assumption | assumption | now apply ident_no_dot].
+  Qed.
+
+  Lemma py_type_ok pkg pkg' p' m' x : field_wf D pkg' p' m' x = true ->
+    exists t kn, py_type class_name pkg x = Ok t /\ kind_name (fd_type x) = Some kn /\ simple t
+      /\ (pkg <> google_protobuf -> spec_value_type class_name D x = Some t).
+  Proof.
+    intros H. unfold field_wf in H. apply andb_prop in H as [H _]. apply andb_prop in H as [H _].
+    destruct (scalar_kind (fd_type x)) as [[kn py]|] eqn:Es.
+    - assert (Hk : kind_name (fd_type x) = Some kn) by (unfold kind_name; now rewrite Es).
+      pose proof (type_row _ _ Hk) as R. unfold type_row_ok in R. rewrite Hk in R.
+      destruct R as (_ & _ & _ & _ & R & Rp). specialize (R class_name pkg x eq_refl). rewrite Es in R, Rp.
+      exists py, kn. split; [assumption|]. split; [assumption|]. split; [now apply prim_simple|].
+      intros _. unfold spec_value_type. now rewrite Es.
+    - destruct (resolve D (fd_type_name x)) as [s|] eqn:Er; [|discriminate].
+      assert (Ht : (fd_type x =? T_MESSAGE) || (fd_type x =? T_ENUM) = true).
+      { destruct s; rewrite H; [reflexivity | apply orb_true_r]. }
+      assert (Hk : exists kn, kind_name (fd_type x) = Some kn).
+      { unfold kind_name. rewrite Es. destruct (fd_type x =? T_MESSAGE); [eauto|].
+        cbn [orb] in Ht. rewrite Ht. eauto. }
+      destruct Hk as [kn Hk].
+      pose proof (type_row _ _ Hk) as R. unfold type_row_ok in R. rewrite Hk in R.
+      destruct R as (_ & _ & _ & _ & R & _). specialize (R class_name pkg x eq_refl). rewrite Es in R.
+      eexists; exists kn. split; [exact R|]. split; [assumption|]. split; [apply type_reference_simple|].
+      intros Hpkg. unfold spec_value_type, type_reference. rewrite Es, Ht, wrappers_agree.
+      destruct (lookup (fd_type_name x) wkt_wrappers) as [[k py]|]; cbn [option_map snd]; [reflexivity|].
+      rewrite duration_const, timestamp_const.
+      destruct (str_eqb (fd_type_name x) wkt_duration); [reflexivity|].
+      destruct (str_eqb (fd_type_name x) wkt_timestamp); [reflexivity|].
+      rewrite Er, (ref_ok _ _ Er). rewrite gp_const, bundled_const.
+      apply str_eqb_neq in Hpkg. rewrite Hpkg. cbn [negb]. rewrite andb_true_r. reflexivity.
+  Qed.
+
+  (* the heuristic never misses a real map field (needs only protoc's guarantees) *)
+  Lemma is_map_complete pkg p m x e :
+    field_wf D pkg p m x = true -> (forall n, In n (md_nested m) -> ident (md_name n) = true) ->
+    spec_map_entry pkg p m x = Some e -> is_map x m = true /\ In e (heur_cands m x).
+  Proof.
+    intros Hx Hid Hs. unfold spec_map_entry in Hs.
+    destruct (fd_type x =? T_MESSAGE) eqn:Et; [|discriminate].
+    apply find_some in Hs as [Hin Hc]. apply andb_prop in Hc as [Hme Hfn]. apply str_eqb_eq in Hfn.
+    unfold field_wf in Hx. apply andb_prop in Hx as [_ Hx]. rewrite forallb_forall in Hx. specialize (Hx e Hin).
+    rewrite Hme, Hfn, str_eqb_refl in Hx. cbn [andb negb orb] in Hx. apply str_eqb_eq in Hx.
+    assert (Hk : lower (strip_us (md_name e)) = lower (strip_us (fd_name x)) ++ s_entry).
+    { rewrite Hx. apply lower_strip_map_entry_name. }
+    assert (Hc : In e (heur_cands m x)).
+    { unfold heur_cands. apply filter_In. split; [assumption|]. now rewrite Hk, str_eqb_refl, Hme. }
+    split; [|assumption].
+    unfold is_map. rewrite type_message_num, Et, <- Hfn.
+    rewrite last_seg_full_name by (apply ident_no_dot; auto).
+    rewrite Hx at 1. rewrite lower_map_entry_name, str_eqb_refl.
+    apply existsb_exists. exists e. split; [assumption|]. now rewrite Hk, str_eqb_refl, Hme.
+  Qed.
+
+  Lemma nested_in_file f p m e : In (p, m) (file_msgs f) -> In e (md_nested m) ->
+    In (p ++ [md_name e], e) (file_msgs f).
+  Proof.
+    unfold file_msgs. intros H He. apply in_flat_map in H as (top & Ht & H).
+    apply in_flat_map. exists top. split; [assumption|]. eapply all_msgs_nested; eauto.
+  Qed.
+
+  Lemma spec_group_ok m x : (match fd_oneof_index x with
+                             | Some i => (0 <=? i) && (i <? Zlength (md_oneofs m))
+                             | None => true end) = true ->
+    exists g, (if is_oneof x
+               then match fd_oneof_index x with
+                    | Some i => do g <- py_index (md_oneofs m) i; Ok (Some g)
+                    | None => Err EOther
+                    end
+               else Ok None) = Ok g /\ spec_group m x = Some g.
+  Proof.
+    intros H. unfold is_oneof, spec_group. destruct (fd_oneof_index x) as [i|].
+    - rewrite H. destruct (fd_proto3_optional x); cbn [negb andb]; [eauto|].
+      apply andb_prop in H as [H1 H2]. apply Z.leb_le in H1. apply Z.ltb_lt in H2.
+      rewrite (py_index_ok (md_oneofs m) i ([] : str)) by lia. cbn [bind]. eauto.
+    - rewrite andb_false_r. eauto.
+  Qed.
+
+  Lemma compile_plain_ok f p m x :
+    In f D -> In (p, m) (file_msgs f) -> In x (md_fields m) ->
+    spec_map_entry (fl_package f) p m x = None ->
+    opt_str_eqb (field_wraps (fd_type_name x)) (spec_wraps x) = true ->
+    exists cf, compile_plain field_name class_name (fl_package f) m x (is_oneof x) = Ok cf
+      /\ pf_name cf = field_name (fd_name x)
+      /\ (fl_package f <> google_protobuf ->
+          spec_field field_name class_name D (fl_package f) p m x = Some (reflect_field cf)).
+  Proof.
+    intros Hf Hm Hx Hsp Hw.
+    destruct (wf_msg_parts _ _ _ (wf_msg f p m Hf Hm)) as (_ & Hfw & _).
+    specialize (Hfw x Hx).
+    destruct (py_type_ok (fl_package f) _ _ _ _ Hfw) as (t & kn & Hpy & Hk & Hsimple & Hsv).
+    pose proof (type_row _ _ Hk) as R. unfold type_row_ok in R. rewrite Hk in R.
+    destruct R as (Hft & Hpt & (aw & Hacc & Haw) & _ & _).
+    assert (Hg := Hfw). unfold field_wf in Hg. apply andb_prop in Hg as [Hg _]. apply andb_prop in Hg as [_ Hg].
+    destruct (spec_group_ok m x Hg) as (g & Hg1 & Hg2).
+    assert (Hwr : field_wraps (fd_type_name x) = spec_wraps x).
+    { destruct (field_wraps (fd_type_name x)), (spec_wraps x); cbn in Hw; try discriminate; [|reflexivity].
+      apply str_eqb_eq in Hw. now subst. }
+    assert (Hhelp : field_helper kn (spec_wraps x) (fd_proto3_optional x) g = Ok kn).
+    { unfold field_helper. rewrite Hpt, Hacc.
+      assert (E : match spec_wraps x with Some _ => negb aw | None => false end = false).
+      { unfold spec_wraps. destruct (fd_type x =? T_MESSAGE) eqn:Et; [|reflexivity].
+        apply Z.eqb_eq in Et. rewrite (Haw Et).
+        destruct (lookup (fd_type_name x) wkt_wrappers) as [[k0 py0]|]; reflexivity. }
+      rewrite E. cbn [negb orb andb]. rewrite andb_false_r. now destruct g. }
+    unfold compile_plain. rewrite Hpy. cbn [bind]. rewrite Hft. cbn [bind].
+    rewrite Hg1. cbn [bind]. rewrite Hwr, Hhelp. cbn [bind].
+    eexists. split; [reflexivity|]. split; [reflexivity|].
+    intros Hpkg. unfold spec_field. rewrite Hsp, Hk, (Hsv Hpkg), Hg2. unfold reflect_field. cbn [pf_name pf_number
+      pf_proto_type pf_map_types pf_group pf_wraps pf_optional pf_hint]. rewrite label_repeated_num.
+    do 2 f_equal. pose proof (simple_norm t Hsimple) as Hn.
+    destruct (fd_label x =? L_REPEATED); [cbn [norm_hint]; now rewrite Hn|].
+    destruct (fd_proto3_optional x); [|now rewrite Hn].
+    cbn [norm_hint]. rewrite Hn. destruct t; reflexivity.
+  Qed.
+  Lemma compile_map_unfold pkg m x :
+    compile_map field_name class_name pkg m x =
+    (do kvs <- mapM (fun n =>
+                do k <- py_index (md_fields n) 0;
+                do v <- py_index (md_fields n) 1;
+                do pk <- py_type class_name pkg k;
+                do pv <- py_type class_name pkg v;
+                do nk <- type_enum_name (fd_type k);
+                do nv <- type_enum_name (fd_type v);
+                Ok (pk, pv, nk, nv)) (heur_cands m x);
+     match last (map Some kvs) None with
+     | Some (pk, pv, nk, nv) =>
+         match lookup nk bp_type_constants, lookup nv bp_type_constants with
+         | Some ck, Some cvv =>
+             do pt <- field_helper s_map None false None;
+             Ok (mkPyField (field_name (fd_name x)) (fd_number x) pt (Some (ck, cvv)) None None false (PyDict pk pv))
+         | _, _ => Err EAttribute
+         end
+     | None => Err EOther
+     end).
+  Proof. reflexivity. Qed.
+
+  Lemma nested_ident f p m : In f D -> In (p, m) (file_msgs f) ->
+    forall n, In n (md_nested m) -> ident (md_name n) = true.
+  Proof.
+    intros Hf Hm n Hn. pose proof (nested_in_file f p m n Hm Hn) as Hin.
+    apply (wf_msg_parts _ _ _ (wf_msg f _ _ Hf Hin)).
+  Qed.
+
+  Lemma compile_map_ok f p m x e :
+    In f D -> In (p, m) (file_msgs f) -> In x (md_fields m) ->
+    spec_map_entry (fl_package f) p m x = Some e ->
+    (forall n, In n (heur_cands m x) -> md_name n = md_name e) ->
+    exists cf, compile_map field_name class_name (fl_package f) m x = Ok cf
+      /\ pf_name cf = field_name (fd_name x)
+      /\ (fl_package f <> google_protobuf ->
+          spec_field field_name class_name D (fl_package f) p m x = Some (reflect_field cf)).
+  Proof.
+    intros Hf Hm Hx Hsp Hall.
+    destruct (wf_msg_parts _ _ _ (wf_msg f p m Hf Hm)) as (_ & Hfw & _ & Hnd & _).
+    destruct (is_map_complete _ _ _ _ _ (Hfw x Hx) (nested_ident f p m Hf Hm) Hsp) as [_ Hc].
+    assert (He : In e (md_nested m) /\ md_map_entry e = true).
+    { unfold heur_cands in Hc. apply filter_In in Hc as [Hin Hc]. apply andb_prop in Hc. tauto. }
+    destruct He as [He Hme].
+    assert (Hcands : heur_cands m x = [e]).
+    { unfold heur_cands in *. apply (filter_unique md_name); auto. apply filter_In in Hc. tauto. }
+    pose proof (nested_in_file f p m e Hm He) as Hein.
+    destruct (wf_msg_parts _ _ _ (wf_msg f _ _ Hf Hein)) as (_ & Hefw & _ & _ & Hmw).
+    specialize (Hmw Hme). unfold map_entry_wf in Hmw.
+    destruct (md_fields e) as [|k [|v [|w ws]]] eqn:Ef; try discriminate.
+    apply andb_prop in Hmw as [Hk1 Hv2]. apply Z.eqb_eq in Hk1, Hv2.
+    destruct (py_type_ok (fl_package f) _ _ _ _ (Hefw k (or_introl eq_refl)))
+      as (tk & knk & Hpyk & Hkk & Hsk & Hsvk).
+    destruct (py_type_ok (fl_package f) _ _ _ _ (Hefw v (or_intror (or_introl eq_refl))))
+      as (tv & knv & Hpyv & Hkv & Hsv & Hsvv).
+    pose proof (type_row _ _ Hkk) as Rk. unfold type_row_ok in Rk. rewrite Hkk in Rk.
+    destruct Rk as (_ & _ & _ & (nk & Hnk & Hck) & _).
+    pose proof (type_row _ _ Hkv) as Rv. unfold type_row_ok in Rv. rewrite Hkv in Rv.
+    destruct Rv as (_ & _ & _ & (nv & Hnv & Hcv) & _).
+    destruct map_helper_ok as (Hmp & aw & ao & Hma).
+    rewrite compile_map_unfold, Hcands. cbn [mapM]. rewrite Ef.
+    change (py_index [k; v] 0) with (Ok k). change (py_index [k; v] 1) with (Ok v). cbn [bind].
+    rewrite Hpyk, Hpyv. cbn [bind]. rewrite Hnk, Hnv. cbn [bind map last].
+    rewrite Hck, Hcv. unfold field_helper. rewrite Hmp, Hma. cbn [orb andb bind].
+    eexists. split; [reflexivity|]. split; [reflexivity|].
+    intros Hpkg. unfold spec_field. rewrite Hsp. unfold field_numbered. rewrite Ef. cbn [find].
+    rewrite Hk1, Hv2. cbn [Z.eqb Pos.eqb]. rewrite Hkk, Hkv, (Hsvk Hpkg), (Hsvv Hpkg).
+    unfold reflect_field. cbn [pf_name pf_number pf_proto_type pf_map_types pf_group pf_wraps pf_optional pf_hint norm_hint].
+    now rewrite (simple_norm _ Hsk), (simple_norm _ Hsv).
+  Qed.
+
+  (* one field: the plugin's reading is the specification's *)
+  Lemma compile_field_ok f p m x :
+    In f D -> In (p, m) (file_msgs f) -> In x (md_fields m) ->
+    map_keys_ok_msg (fl_package f) (p, m) = true ->
+    opt_str_eqb (field_wraps (fd_type_name x)) (spec_wraps x) = true ->
+    exists cf, compile_field field_name class_name (fl_package f) m x = Ok cf
+      /\ pf_name cf = field_name (fd_name x)
+      /\ (fl_package f <> google_protobuf ->
+          spec_field field_name class_name D (fl_package f) p m x = Some (reflect_field cf)).
+  Proof.
+    intros Hf Hm Hx Hmk Hw. unfold map_keys_ok_msg in Hmk. cbn [fst snd] in Hmk.
+    rewrite forallb_forall in Hmk. specialize (Hmk x Hx).
+    unfold compile_field.
+    destruct (spec_map_entry (fl_package f) p m x) as [e|] eqn:Hsp.
+    - destruct (wf_msg_parts _ _ _ (wf_msg f p m Hf Hm)) as (_ & Hfw & _).
+      destruct (is_map_complete _ _ _ _ _ (Hfw x Hx) (nested_ident f p m Hf Hm) Hsp) as [-> _].
+      apply (compile_map_ok f p m x e); auto.
+      rewrite forallb_forall in Hmk. intros n Hn. apply str_eqb_eq. auto.
+    - apply negb_true_iff in Hmk. rewrite Hmk.
+      destruct (compile_plain_ok f p m x Hf Hm Hx Hsp Hw) as (cf & Hc & Hrest).
+      exists cf. split; [|assumption]. now destruct (is_oneof x).
+  Qed.
+
+  (* ====================================================================================
+     Part 4 — classes, traversal, modules
+     ==================================================================================== *)
+  Hypothesis Hfd : flat_dotted_ok class_name D = true.
+  Hypothesis Hcn : class_nodup class_name D = true.
+  Hypothesis Hfn : fields_nodup field_name D = true.
+  Hypothesis Hmn : members_nodup enum_member_name D = true.
+  Hypothesis Hmk : map_keys_ok D = true.
+  Hypothesis Hwr : wraps_ok D = true.
+
+  Lemma flat_dotted_msg f p m : In f D -> In (p, m) (file_msgs f) -> class_name (flat p) = class_name (dotted p).
+  Proof.
+    intros Hf Hm. unfold flat_dotted_ok in Hfd. rewrite forallb_forall in Hfd. specialize (Hfd f Hf).
+    rewrite forallb_forall in Hfd. apply str_eqb_eq. apply Hfd. apply in_or_app. left.
+    change p with (fst (p, m)). now apply in_map.
+  Qed.
+
+  Lemma flat_dotted_enum f p e : In f D -> In (p, e) (file_enums f) -> class_name (flat p) = class_name (dotted p).
+  Proof.
+    intros Hf Hm. unfold flat_dotted_ok in Hfd. rewrite forallb_forall in Hfd. specialize (Hfd f Hf).
+    rewrite forallb_forall in Hfd. apply str_eqb_eq. apply Hfd. apply in_or_app. right.
+    change p with (fst (p, e)). now apply in_map.
+  Qed.
+
+  Lemma compile_message_ok f p m : In f D -> In (p, m) (file_msgs f) ->
+    exists c, compile_message field_name class_name (fl_package f) (flat p) m = Ok c
+      /\ fst c = class_name (dotted p)
+      /\ fst (reflect_class c) = class_name (dotted p)
+      /\ (fl_package f <> google_protobuf ->
+          spec_message_class field_name class_name D (fl_package f) (p, m) = Some (reflect_class c)).
+  Proof.
+    intros Hf Hm.
+    assert (Hmk' : map_keys_ok_msg (fl_package f) (p, m) = true).
+    { unfold map_keys_ok in Hmk. rewrite forallb_forall in Hmk. specialize (Hmk f Hf).
+      rewrite forallb_forall in Hmk. auto. }
+    assert (Hwr' : forall x, In x (md_fields m) -> opt_str_eqb (field_wraps (fd_type_name x)) (spec_wraps x) = true).
+    { unfold wraps_ok in Hwr. rewrite forallb_forall in Hwr. specialize (Hwr f Hf).
+      rewrite forallb_forall in Hwr. specialize (Hwr (p, m) Hm). cbn [snd] in Hwr. rewrite forallb_forall in Hwr. auto. }
+    assert (Hnd : NoDup (map (fun x => field_name (fd_name x)) (md_fields m))).
+    { unfold fields_nodup in Hfn. rewrite forallb_forall in Hfn. specialize (Hfn f Hf).
+      rewrite forallb_forall in Hfn. specialize (Hfn (p, m) Hm). now apply nodupb_NoDup. }
+    destruct (mapM_Forall2 (compile_field field_name class_name (fl_package f) m)
+                (fun x cf => pf_name cf = field_name (fd_name x)
+                             /\ (fl_package f <> google_protobuf ->
+                                 spec_field field_name class_name D (fl_package f) p m x = Some (reflect_field cf)))
+                (md_fields m)) as (cfs & Hcfs & F).
+    { intros x Hx. apply compile_field_ok; auto. }
+    unfold compile_message. rewrite Hcfs. cbn [bind]. eexists. split; [reflexivity|].
+    cbn [fst]. split; [eapply flat_dotted_msg; eauto|]. split; [eapply flat_dotted_msg; eauto|].
+    intros Hpkg. unfold spec_message_class. cbn [fst snd].
+    rewrite (all_some_Forall2 _ reflect_field _ cfs).
+    2:{ eapply Forall2_impl; [|exact F]. cbn. intros a y [_ H]. auto. }
+    unfold reflect_class. cbn [fst snd]. rewrite (flat_dotted_msg f p m Hf Hm). do 3 f_equal.
+    rewrite py_namespace_nodup.
+    - rewrite map_map. cbn [field_key snd]. reflexivity.
+    - rewrite map_map. cbn [field_key fst reflect_field pf_name].
+      erewrite (Forall2_map_eq (fun x => field_name (fd_name x)) pf_name); [exact Hnd|].
+      eapply Forall2_impl; [|exact F]. cbn. tauto.
+  Qed.
+
+  Lemma compile_enum_ok f p e : In f D -> In (p, e) (file_enums f) ->
+    reflect_class (compile_enum class_name enum_member_name (flat p) e) = spec_enum_class class_name enum_member_name (p, e).
+  Proof.
+    intros Hf He. unfold compile_enum, reflect_class, spec_enum_class. cbn [fst snd].
+    rewrite (flat_dotted_enum f p e Hf He). do 2 f_equal.
+    apply py_namespace_nodup. rewrite map_map.
+    unfold members_nodup in Hmn. rewrite forallb_forall in Hmn. specialize (Hmn f Hf).
+    rewrite forallb_forall in Hmn. specialize (Hmn (p, e) He). cbn [fst snd] in Hmn.
+    apply nodupb_NoDup in Hmn. erewrite map_ext; [exact Hmn|]. now intros [n v].
+  Qed.
+
+  (* ---- traversal ---- *)
+  Fixpoint items_msgs (l : list item) : list (str * msg_d) :=
+    match l with
+    | [] => []
+    | IMsg nm m :: r => (nm, m) :: items_msgs r
+    | IEnum _ _ :: r => items_msgs r
+    end.
+
+  Lemma items_msgs_app a b : items_msgs (a ++ b) = items_msgs a ++ items_msgs b.
+  Proof. induction a as [|[nm m|nm e] r IH]; cbn [app items_msgs]; [reflexivity | now rewrite IH | exact IH]. Qed.
+
+  Lemma items_enums_app a b :
+    items_enums class_name enum_member_name (a ++ b)
+    = items_enums class_name enum_member_name a ++ items_enums class_name enum_member_name b.
+  Proof. induction a as [|[nm m|nm e] r IH]; cbn [app items_enums]; [reflexivity | exact IH | now rewrite IH]. Qed.
+
+  Lemma items_msgs_enums (g : enum_d -> item) l : (forall e, exists nm, g e = IEnum nm e) -> items_msgs (map g l) = [].
+  Proof. intros H. induction l as [|e r IH]; [reflexivity|]. cbn [map]. destruct (H e) as [nm ->]. exact IH. Qed.
+
+  Lemma items_msgs_flat_map {A} (F : A -> list item) l : items_msgs (flat_map F l) = flat_map (fun a => items_msgs (F a)) l.
+  Proof. induction l as [|a r IH]; [reflexivity|]. cbn [flat_map]. now rewrite items_msgs_app, IH. Qed.
+
+  Lemma items_enums_flat_map {A} (F : A -> list item) l :
+    items_enums class_name enum_member_name (flat_map F l)
+    = flat_map (fun a => items_enums class_name enum_member_name (F a)) l.
+  Proof. induction l as [|a r IH]; [reflexivity|]. cbn [flat_map]. now rewrite items_enums_app, IH. Qed.
+
+  Lemma items_enums_map (h : enum_d -> str) l :
+    items_enums class_name enum_member_name (map (fun e => IEnum (h e) e) l)
+    = map (fun e => compile_enum class_name enum_member_name (h e) e) l.
+  Proof. induction l as [|e r IH]; [reflexivity|]. cbn [map items_enums]. now rewrite IH. Qed.
+
+  Lemma walk_msg_unfold prefix m :
+    walk_msg prefix m =
+    IMsg (prefix ++ c_us :: md_name m) m
+      :: map (fun e => IEnum ((prefix ++ c_us :: md_name m) ++ c_us :: ed_name e) e) (md_enums m)
+      ++ flat_map (walk_msg (prefix ++ c_us :: md_name m)) (md_nested m).
+  Proof. destruct m; reflexivity. Qed.
+
+  Lemma walk_msg_msgs m : forall pre,
+    items_msgs (walk_msg (flat pre) m) = map (fun pm => (flat (fst pm), snd pm)) (all_msgs pre m).
+  Proof.
+    induction m as [n fs ns es os me IH] using msg_d_ind'. intros pre.
+    rewrite walk_msg_unfold, all_msgs_unfold. cbn [md_name md_enums md_nested items_msgs map fst snd].
+    rewrite <- flat_snoc. f_equal.
+    rewrite items_msgs_app, items_msgs_enums by eauto. cbn [app].
+    rewrite items_msgs_flat_map, map_flat_map. apply flat_map_ext_in.
+    intros y Hy. rewrite Forall_forall in IH. apply IH; assumption.
+  Qed.
+
+  Lemma walk_msg_enums m : forall pre,
+    items_enums class_name enum_member_name (walk_msg (flat pre) m)
+    = map (fun pe => compile_enum class_name enum_member_name (flat (fst pe)) (snd pe)) (all_enums_in pre m).
+  Proof.
+    induction m as [n fs ns es os me IH] using msg_d_ind'. intros pre.
+    rewrite walk_msg_unfold, all_enums_in_unfold. cbn [md_name md_enums md_nested items_enums].
+    rewrite <- flat_snoc. rewrite items_enums_app, map_app. f_equal.
+    - rewrite items_enums_map, map_map. apply map_ext. intros e. cbn [fst snd]. now rewrite (flat_snoc (pre ++ [n]) (ed_name e)).
+    - rewrite items_enums_flat_map, map_flat_map. apply flat_map_ext_in.
+      intros y Hy. rewrite Forall_forall in IH. apply IH; assumption.
+  Qed.
+
+  Lemma traverse_msgs f : items_msgs (traverse f) = map (fun pm => (flat (fst pm), snd pm)) (file_msgs f).
+  Proof.
+    unfold traverse, file_msgs. rewrite items_msgs_app, items_msgs_enums by eauto. cbn [app].
+    rewrite items_msgs_flat_map, map_flat_map. apply flat_map_ext_in. intros m _. exact (walk_msg_msgs m []).
+  Qed.
+
+  Lemma traverse_enums f :
+    items_enums class_name enum_member_name (traverse f)
+    = map (fun pe => compile_enum class_name enum_member_name (flat (fst pe)) (snd pe)) (file_enums f).
+  Proof.
+    unfold traverse, file_enums. rewrite items_enums_app, map_app. f_equal.
+    - rewrite items_enums_map, map_map. apply map_ext. intros e. cbn [fst snd flat map concat]. now rewrite app_nil_r.
+    - rewrite items_enums_flat_map, map_flat_map. apply flat_map_ext_in. intros m _. exact (walk_msg_enums m []).
+  Qed.
+
+  Lemma items_messages_eq pkg l :
+    items_messages field_name class_name pkg l
+    = mapM (fun nm => compile_message field_name class_name pkg (fst nm) (snd nm))
+           (filter (fun nm => negb (md_map_entry (snd nm))) (items_msgs l)).
+  Proof.
+    induction l as [|[nm m|nm e] r IH]; cbn [items_messages items_msgs filter]; [reflexivity | | exact IH].
+    cbn [snd]. destruct (md_map_entry m); cbn [negb]; [exact IH|]. cbn [mapM fst snd]. now rewrite IH.
+  Qed.
+
+  (* ---- one package ---- *)
+  Lemma files_of_in pkg f : In f (files_of D pkg) -> In f D /\ fl_package f = pkg.
+  Proof. unfold files_of. intros H. apply filter_In in H as [H E]. apply str_eqb_eq in E. auto. Qed.
+
+  Lemma in_flat_files {A} (F : file_d -> list A) pkg a : In a (flat_map F (files_of D pkg)) ->
+    exists f, In f D /\ fl_package f = pkg /\ In a (F f).
+  Proof. intros H. apply in_flat_map in H as (f & Hf & Ha). apply files_of_in in Hf as [H1 H2]. eauto. Qed.
+
+  Lemma compile_package_ok pkg :
+    exists md, compile_package field_name class_name enum_member_name D pkg = Ok md /\ fst md = pkg
+      /\ (In pkg (output_packages D) ->
+          spec_module field_name class_name enum_member_name D pkg = Some (reflect_module md)).
+  Proof.
+    set (files := files_of D pkg).
+    set (g := fun pm : list str * msg_d => (flat (fst pm), snd pm)).
+    set (L := filter (fun pm : list str * msg_d => negb (md_map_entry (snd pm))) (flat_map file_msgs files)).
+    set (ENUMS := flat_map file_enums files).
+    assert (Hitems : items_msgs (flat_map traverse files) = map g (flat_map file_msgs files)).
+    { rewrite items_msgs_flat_map, map_flat_map. apply flat_map_ext_in. intros f _. apply traverse_msgs. }
+    assert (Henums : items_enums class_name enum_member_name (flat_map traverse files)
+                     = map (fun pe => compile_enum class_name enum_member_name (flat (fst pe)) (snd pe)) ENUMS).
+    { rewrite items_enums_flat_map. unfold ENUMS. rewrite map_flat_map. apply flat_map_ext_in. intros f _. apply traverse_enums. }
+    destruct (mapM_Forall2 (fun pm => compile_message field_name class_name pkg (flat (fst pm)) (snd pm))
+                (fun pm c => fst (reflect_class c) = class_name (dotted (fst pm))
+                             /\ (pkg <> google_protobuf ->
+                                 spec_message_class field_name class_name D pkg pm = Some (reflect_class c)))
+                L) as (cs & Hcs & F).
+    { intros [p m] Hin. unfold L in Hin. apply filter_In in Hin as [Hin _].
+      apply in_flat_files in Hin as (f & Hf & <- & Hm).
+      destruct (compile_message_ok f p m Hf Hm) as (c & Hc & _ & H2 & H3). exists c. cbn [fst snd]. auto. }
+    unfold compile_package. fold files. rewrite items_messages_eq, Hitems, filter_map_comm, mapM_map.
+    cbn [g fst snd]. fold L. rewrite Hcs. cbn [bind]. eexists. split; [reflexivity|]. split; [reflexivity|].
+    intros Hout. unfold output_packages in Hout. apply filter_In in Hout as [Hpk' Hne].
+    apply negb_true_iff, str_eqb_neq in Hne.
+    unfold spec_module. fold files. fold L. fold ENUMS.
+    rewrite (all_some_Forall2 _ reflect_class _ cs).
+    2:{ eapply Forall2_impl; [|exact F]. cbn. intros a y [_ H]. auto. }
+    unfold reflect_module. cbn [fst snd]. do 2 f_equal. rewrite Henums.
+    assert (Hen : map reflect_class (map (fun pe => compile_enum class_name enum_member_name (flat (fst pe)) (snd pe)) ENUMS)
+                  = map (spec_enum_class class_name enum_member_name) ENUMS).
+    { rewrite map_map. apply map_ext_in. intros [p e] Hin. apply in_flat_files in Hin as (f & Hf & _ & He).
+      cbn [fst snd]. eapply compile_enum_ok; eauto. }
+    rewrite py_namespace_nodup; rewrite map_app, Hen; [reflexivity|].
+    (* distinct class names *)
+    unfold class_nodup in Hcn. rewrite forallb_forall in Hcn.
+    assert (Hout : In pkg (output_packages D)).
+    { unfold output_packages. apply filter_In. split; [assumption|]. apply negb_true_iff. now apply str_eqb_neq. }
+    specialize (Hcn pkg Hout). apply nodupb_NoDup in Hcn. unfold class_paths in Hcn. fold files in Hcn. fold ENUMS in Hcn.
+    fold L in Hcn. rewrite map_app in Hcn. rewrite map_app.
+    assert (E1 : map fst (map (spec_enum_class class_name enum_member_name) ENUMS)
+                 = map (fun p => class_name (dotted p)) (map fst ENUMS)).
+    { rewrite !map_map. apply map_ext. now intros [p e]. }
+    assert (E2 : map fst (map reflect_class cs) = map (fun p => class_name (dotted p)) (map fst L)).
+    { rewrite !map_map. apply (Forall2_map_eq (fun pm => class_name (dotted (fst pm))) (fun c => fst (reflect_class c))).
+      eapply Forall2_impl; [|exact F]. cbn. tauto. }
+    rewrite E1, E2. exact Hcn.
+  Qed.
+
+  (* ---- the whole request ---- *)
+  Lemma filter_modules (pkgs : list str) (mods : list py_module) :
+    Forall2 (fun pkg md => fst md = pkg
+                           /\ (In pkg (output_packages D) ->
+                               spec_module field_name class_name enum_member_name D pkg = Some (reflect_module md)))
+            pkgs mods ->
+    (forall p, In p pkgs -> In p (packages D)) ->
+    all_some (map (spec_module field_name class_name enum_member_name D)
+                  (filter (fun p => negb (str_eqb p google_protobuf)) pkgs))
+    = Some (map reflect_module (filter (fun m => negb (str_eqb (fst m) s_gp)) mods)).
+  Proof.
+    induction 1 as [|pkg md pkgs mods [E H] _ IH]; intros Hsub; [reflexivity|].
+    cbn [filter]. rewrite E, gp_const. destruct (str_eqb pkg google_protobuf) eqn:Eg; cbn [negb].
+    - apply IH. intros; apply Hsub; now right.
+    - cbn [map all_some]. rewrite H, IH; [reflexivity | intros; apply Hsub; now right |].
+      unfold output_packages. apply filter_In. split; [apply Hsub; now left | now rewrite Eg].
+  Qed.
+
+  Theorem faithful_section :
+    exists t, class_table_of field_name class_name enum_member_name D = Some t
+              /\ reflect (compile field_name class_name enum_member_name D) = Ok t.
+  Proof.
+    destruct (mapM_Forall2 (compile_package field_name class_name enum_member_name D)
+                (fun pkg md => fst md = pkg
+                               /\ (In pkg (output_packages D) ->
+                                   spec_module field_name class_name enum_member_name D pkg = Some (reflect_module md)))
+                (packages D)) as (mods & Hmods & F).
+    { intros pkg _. destruct (compile_package_ok pkg) as (md & H1 & H2 & H3). eauto. }
+    eexists. split.
+    - unfold class_table_of, output_packages. apply (filter_modules _ _ F). auto.
+    - unfold compile. rewrite Hmods. reflexivity.
+  Qed.
+End Faithful.
+
+Theorem field_faithful field_name class_name enum_member_name D :
+  protoc_wf D = true -> names_ok field_name class_name enum_member_name D = true ->
+  exists t, class_table_of field_name class_name enum_member_name D = Some t
+            /\ reflect (compile field_name class_name enum_member_name D) = Ok t.
+Proof.
+  intros Hwf Hn. unfold names_ok in Hn.
+  repeat match goal with H : _ && _ = true |- _ => apply andb_prop in H as [? ?] end.
+  apply faithful_section; assumption.
 Qed.
